@@ -58,8 +58,7 @@ theorem blank_stop_word {ws : List Char} (rest : List Char) (h : Blank ws) : sto
   cases ws with
   | nil => exact absurd rfl hne
   | cons d ds =>
-    apply stopsAt_cons
-    rcases hd d (by simp) with e | e <;> (subst e; decide)
+    exact stopsAt_cons _ _ _ (space_props d (hd d (by simp))).2.1
 
 theorem digit_ne_m (d : Char) (h : isDigit d = true) : d ≠ 'm' := by
   unfold isDigit at h
@@ -107,8 +106,7 @@ theorem reTime_none_simple (w ws ip fp tail : List Char) (hw : TWord w) (hws : B
     · rw [h]; exact hB _ _
     · rw [h]
       apply hB'
-      apply stopsAt_cons
-      rcases hws.2 a ha with e | e <;> (subst e; decide)
+      exact stopsAt_cons _ _ _ (space_props a (hws.2 a ha)).2.2.1
   have hC' : ∀ (a : Char) (r : List Char) (c : Caps) (k : List Char → Caps → Option Caps),
       (isAlpha a || a == '_') = true →
       ((Re.star isSpace).seq ((Re.grp 2 (Re.plus isDigit)).seq R3)).m (a :: r) c k = none := by
@@ -129,7 +127,7 @@ theorem reTime_none_simple (w ws ip fp tail : List Char) (hw : TWord w) (hws : B
 
 
 theorem blank_digit_false {ws : List Char} (h : Blank ws) : ∀ c ∈ ws, isDigit c = false := by
-  intro c hc; rcases h.2 c hc with e | e <;> (subst e; decide)
+  intro c hc; exact (space_props c (h.2 c hc)).2.2.1
 
 /-- `^(\w+)(\s*)(\d+\.\d+)` on `word blanks D.D tail` -/
 theorem reTime2_simple (w ws ip fp tail : List Char) (hw : TWord w) (hws : Blank ws) (hi : Digits ip)
